@@ -31,6 +31,9 @@ func init() {
 	core.Register("lossy", func(seed uint64, tier, out string) (*core.Result, error) {
 		return shardedServerSuite("lossy", seed, tier, out, lossyWorker)
 	})
+	core.Register("lossylite", func(seed uint64, tier, out string) (*core.Result, error) {
+		return shardedServerSuite("lossylite", seed, tier, out, lossyLiteWorker)
+	})
 }
 
 type relay struct {
@@ -343,13 +346,27 @@ func lossyHistory(res *core.Result, r *core.RNG, tier string) (*sim, error) {
 	return s, nil
 }
 
+// suite "lossylite": two histories per worker (used by C09, whose statement covers the datagrams a
+// device emits when it retransmits: one value per timeslot, whatever the server's window offset)
+func lossyLiteWorker(res *core.Result, r *core.RNG, tier, out string) error {
+	n := 2
+	if tier == "thorough" {
+		n = 12
+	}
+	return lossyRun(res, r, tier, out, n, "lossylite")
+}
+
 func lossyWorker(res *core.Result, r *core.RNG, tier, out string) error {
-	var items []string
 	n := 6
 	if tier == "thorough" {
 		n = 40
 	}
-	if core.Shard == 1%core.Shards {
+	return lossyRun(res, r, tier, out, n, "lossy")
+}
+
+func lossyRun(res *core.Result, r *core.RNG, tier, out string, n int, name string) error {
+	var items []string
+	if core.Shard == 1%core.Shards && name == "lossy" {
 		// the reply a device syncs against must be a snapshot also while the week rotation runs
 		if err := schedSyncVsRotate(res, r.Fork()); err != nil {
 			return err
@@ -367,5 +384,8 @@ func lossyWorker(res *core.Result, r *core.RNG, tier, out string) error {
 	}
 	res.Required = []string{"lossy.history", "lossy.retransmission", "lossy.dropped", "lossy.window-offset-nonzero", "lossy.installed-after-window-start", "lossy.rotated-before-sync", "lossy.delivered-at-range-end", "sched.sync-vs-rotate"}
 	res.Rule = "real client -> scripted UDP relay (each original independently dropped / delivered / duplicated, shuffled) -> real server; readings positive, negative, sentinel, unparseable, int32 extremes; server window at offset 0 / several weeks on / rotating between the originals and the sync round; device installed at genesis / after / before the start of the server window; optional dead second server (failed sync attempts); then one completed sync round of the real client code and delivery of the retransmissions; non-trivial = at least one retransmission; distinct by full history"
-	return writeServerCases(res, out, "lossy", items)
+	if name == "lossylite" {
+		res.Required = []string{"lossy.history", "lossy.retransmission", "lossy.window-offset-nonzero"}
+	}
+	return writeServerCases(res, out, name, items)
 }
